@@ -1,4 +1,229 @@
-import CV.Model.Core.Machine
+import CV.Proofs.InvForest
+import CV.Proofs.InvAnnounce
+/-
+C07 — the component tree stays a consistent forest under register / unregister.
+
+Machine-level theorems about the small-step core machine (`CV.Model.Core.Step`), over every
+configuration a driver session can reach (`CV.Core.Reach`, CV/Proofs/CoreReach.lean) from a state
+in which every component is a detached root (`InitForest`).  Proofs: CV/Proofs/InvForest.lean.
+
+  forest_inv            parent and child links agree, one parent each, no cycles, `root` correct:
+                        `ForestInv` in EVERY reachable configuration (not only between operations)
+  root_is_top           the root is reached by parent links, is its own parent, and is the only such
+  subtree_connected     all members of a subtree have the root of its top
+  register_moves_subtree / detach_moves_subtree
+                        the registering / detaching step moves the subtree as a whole
+  announced_registered / announced_unregistered / register_silent
+                        the local step facts behind "announced by exactly one event"
+  announced_only_partial  no other step fires `registered` / `unregistered` (sessions without timers)
+  queued_not_lost       the child's queued events are appended to the new root's queue
+  nothing_after_detach  the former root's `getHandlers` sees nothing of the detached subtree
+-/
 namespace CV.C07
-theorem placeholder : True := trivial
+open CV.Core
+
+/-- **Forest invariant.**  In every reachable configuration parent and child links agree, every
+    component has exactly one parent (itself for a root), there are no cycles, and `root` is
+    the root of the parent (or the component itself for a root). -/
+theorem forest_inv (s0 : St) (h0 : InitForest s0) (c : Cfg) (hr : Reach s0 c) : ForestInv c.st :=
+  (FInv.reach h0 c hr).forest
+
+/-- **Root is the top of the tree.**  `x.root` is `x` or an ancestor of `x` (reached by parent
+    links), it is its own parent, and it is the only ancestor-or-self of `x` that is its own parent. -/
+theorem root_is_top (s0 : St) (h0 : InitForest s0) (c : Cfg) (hr : Reach s0 c) (x : Nat)
+    (hx : x < c.st.comps.length) :
+    Anc c.st (c.st.comp x).root x ∧
+    (c.st.comp (c.st.comp x).root).parent = (c.st.comp x).root ∧
+    ∀ a, Anc c.st a x → (c.st.comp a).parent = a → a = (c.st.comp x).root := by
+  have hF := forest_inv s0 h0 c hr
+  exact ⟨(hF.root_is_top x hx).1, (hF.root_is_top x hx).2, fun a ha hp => hF.root_unique a x hx ha hp⟩
+
+/-- **Subtrees are connected.**  Every component reachable from `a` through `children` links has
+    the same root as `a`. -/
+theorem subtree_connected (s0 : St) (h0 : InitForest s0) (c : Cfg) (hr : Reach s0 c) (a d : Nat)
+    (ha : a < c.st.comps.length) (hs : Sub c.st a d) : (c.st.comp d).root = (c.st.comp a).root :=
+  (forest_inv s0 h0 c hr).subtree_root a d ha hs
+
+/-- **A registered subtree moves as a whole.**  The step that executes an admissible
+    `x.register(p)` (`p ≠ x`) in a configuration whose tree is a forest (every reachable one, by
+    `forest_inv`) hangs `x` under `p` and gives every member of `x`'s subtree the root of `p`. -/
+theorem register_moves_subtree (c : Cfg) (hF : ForestInv c.st) (x p : Nat) (k : List Frame)
+    (hst : c.stack = .register x p :: k) (hx : c.exn = none) (hadm : c.st.admissible x p = true) (hpx : p ≠ x) :
+    ((step c).st.comp x).parent = p ∧ x ∈ ((step c).st.comp p).children ∧
+    ((step c).st.comp p).root = (c.st.comp p).root ∧
+    ∀ d, Sub (step c).st x d → ((step c).st.comp d).root = (c.st.comp p).root := by
+  rw [step_register c x p k hst hx hadm]
+  exact (register_step_tree hF x p hadm hpx).2
+
+/-- **A detached subtree stays connected.**  The step that runs `_on_prepare_unregister_complete`
+    of an attached component `o` removes `o` from its parent's children, makes it its own parent
+    and gives every member of `o`'s subtree the root `o`; the tree is a forest again at once. -/
+theorem detach_moves_subtree (c : Cfg) (hF : ForestInv c.st) (r h e : Nat) (k : List Frame)
+    (hst : c.stack = .invoke r h e :: k) (hx : c.exn = none)
+    (hk : (c.st.handler h).kind = HKind.prepUnregComplete)
+    (ho : (c.st.handler h).owner < c.st.comps.length)
+    (hne : (c.st.comp (c.st.handler h).owner).parent ≠ (c.st.handler h).owner) :
+    let o := (c.st.handler h).owner
+    ForestInv (step c).st ∧ ((step c).st.comp o).parent = o ∧
+    o ∉ ((step c).st.comp (c.st.comp o).parent).children ∧
+    ∀ d, Sub (step c).st o d → ((step c).st.comp d).root = o := by
+  intro o
+  rw [step_detach c r h e k hst hx hk]
+  obtain ⟨h1, _, h3, h4, h5⟩ := detach_step_tree (s := c.st.logE (Entry.hinv e 4 o))
+    (hF.of_treeEq (TreeEq.logE (TreeEq.refl _) _)) o ho hne
+  refine ⟨h1, ?_, ?_, h5⟩
+  · rw [h3, if_pos rfl]
+  · rw [h4]
+    split
+    · intro hm
+      exact ((hF.childrenNodup _ (hF.parentLt o ho)).mem_erase_iff.mp hm).1 rfl
+    · rename_i hh; exact absurd rfl hh
+
+/-- **Announced once (registered).**  The step of frame `.registerFin x` appends exactly one log
+    entry: the `fire` of a fresh event named `registered`, on `x`'s channel. -/
+theorem announced_registered (c : Cfg) (x : Nat) (k : List Frame)
+    (hst : c.stack = .registerFin x :: k) (hx : c.exn = none) :
+    (step c).st.log = Entry.fire c.st.evs.length Name.registered [(c.st.comp x).chan] 0 :: c.st.log := by
+  rw [step_cons c _ k hst hx]
+  exact Cfg.registerFin_log c k x
+
+/-- … and the registering step itself (frame `.register x p`, whatever its outcome) logs nothing:
+    one `register` operation contributes exactly the one `registered` of its `.registerFin` step. -/
+theorem register_silent (c : Cfg) (x p : Nat) (k : List Frame)
+    (hst : c.stack = .register x p :: k) (hx : c.exn = none) : (step c).st.log = c.st.log := by
+  rw [step_cons c _ k hst hx]
+  exact Cfg.register_log c k x p
+
+/-- **Announced once (unregistered).**  The detaching step appends the handler-invocation entry and
+    exactly one `fire`, of a fresh event named `unregistered`. -/
+theorem announced_unregistered (c : Cfg) (r h e : Nat) (k : List Frame)
+    (hst : c.stack = .invoke r h e :: k) (hx : c.exn = none)
+    (hk : (c.st.handler h).kind = HKind.prepUnregComplete) :
+    ∃ chans, (step c).st.log =
+      Entry.fire c.st.evs.length Name.unregistered chans 0 ::
+        Entry.hinv e 4 (c.st.handler h).owner :: c.st.log := by
+  rw [step_cons c _ k hst hx]
+  exact Cfg.invoke_detach_log c k r h e hk
+
+/-- hypothesis of `announced_only_partial`: no user template is named `registered` / `unregistered`,
+    and the session has no timers -/
+def InitQuiet (s0 : St) : Prop := TmplOk s0.tmpls ∧ s0.timers = []
+
+/-- **No other source of announcements** (partial).  In a session without timers whose user
+    templates do not use the names `registered` / `unregistered`, every step whose top frame is not
+    `.registerFin x` or the `.invoke` of an `_on_prepare_unregister_complete` handler appends only
+    log entries that are not the `fire` of an event named `registered` / `unregistered`.  With
+    `announced_registered`, `register_silent` and `announced_unregistered`: the `fire registered`
+    entries of a log are in one-to-one correspondence with the completed registrations (their
+    `.registerFin` steps), the `fire unregistered` entries with the detach steps.
+
+    FULL statement: the same with `InitQuiet s0 := TmplOk s0.tmpls ∧ ∀ tm ∈ s0.timers, tm.ev = none`
+    (timers allowed).  Obstacle: `Timer._on_generate_events` (`St.timerTick`) fires a STORED event
+    object (`tm.ev`), so its name is read from the event table; one needs the additional invariant
+    "every stored timer event is in range and carries its template's name, and no `modEv` of the
+    model changes a name" - a second pass over all arms with side conditions on `modEv`/`modTimer`,
+    not done here.  It is a proof gap, not a counter-example: the harness agrees with the model on
+    timer scenarios. -/
+theorem announced_only_partial (s0 : St) (hq : InitQuiet s0) (c : Cfg) (hr : Reach s0 c)
+    (hf : ∀ f k, c.stack = f :: k → c.exn = none → ¬ f.announces c.st) :
+    ∃ es, (step c).st.log = es ++ c.st.log ∧ ∀ x, x ∈ es → ¬ RegFire x := by
+  obtain ⟨h1, h2⟩ := reach_tmpls_timers c hr
+  refine step_quiet c (h1 ▸ hq.1) ?_ hf
+  rw [hq.2] at h2
+  exact List.length_eq_zero_iff.mp h2
+
+/-- **Queued events are not lost.**  The registering step appends the deque of the registered
+    component to the deque of its new root (as lists: old root queue ++ old child queue) and leaves
+    the child's deque empty. -/
+theorem queued_not_lost (c : Cfg) (hF : ForestInv c.st) (x p : Nat) (k : List Frame)
+    (hst : c.stack = .register x p :: k) (hx : c.exn = none) (hadm : c.st.admissible x p = true) (hpx : p ≠ x) :
+    ((step c).st.comp (c.st.comp p).root).eq.queue =
+        (c.st.comp (c.st.comp p).root).eq.queue ++ (c.st.comp x).eq.queue ∧
+    ((step c).st.comp x).eq.queue = [] := by
+  rw [step_register c x p k hst hx hadm]
+  rw [St.updateRootAll_eq, St.updateRootAll_eq]
+  exact St.registerPre_queue hF x p hadm hpx
+
+/-- **Nothing further from the former tree.**  After the detaching step no member of the detached
+    subtree is reachable from the former root through `children` links, … -/
+theorem nothing_after_detach (c : Cfg) (hF : ForestInv c.st) (r h e : Nat) (k : List Frame)
+    (hst : c.stack = .invoke r h e :: k) (hx : c.exn = none)
+    (hk : (c.st.handler h).kind = HKind.prepUnregComplete)
+    (ho : (c.st.handler h).owner < c.st.comps.length)
+    (hne : (c.st.comp (c.st.handler h).owner).parent ≠ (c.st.handler h).owner) :
+    let o := (c.st.handler h).owner
+    ∀ d, Sub (step c).st o d → ¬ Sub (step c).st (c.st.comp o).root d := by
+  intro o
+  rw [step_detach c r h e k hst hx hk]
+  exact detach_unreachable (s := c.st.logE (Entry.hinv e 4 o))
+    (hF.of_treeEq (TreeEq.logE (TreeEq.refl _) _)) o ho hne
+
+/-- … so `getHandlers` (`collect`) of the former root returns only handlers that match at a
+    component outside the detached subtree: whatever the former root dispatches from now on, no
+    handler of the detached subtree is among the handlers it computes. -/
+theorem nothing_after_detach_handlers (c : Cfg) (hF : ForestInv c.st) (r h e : Nat) (k : List Frame)
+    (hst : c.stack = .invoke r h e :: k) (hx : c.exn = none)
+    (hk : (c.st.handler h).kind = HKind.prepUnregComplete)
+    (ho : (c.st.handler h).owner < c.st.comps.length)
+    (hne : (c.st.comp (c.st.handler h).owner).parent ≠ (c.st.handler h).owner)
+    (fuel : Nat) (name : Name) (target : Chan) (g : Nat) :
+    let o := (c.st.handler h).owner
+    g ∈ collect (step c).st fuel (c.st.comp o).root name target →
+      ∃ d, matchesAt (step c).st d name target g ∧ ¬ Sub (step c).st o d := by
+  intro o
+  rw [step_detach c r h e k hst hx hk]
+  exact detach_collect (s := c.st.logE (Entry.hinv e 4 o))
+    (hF.of_treeEq (TreeEq.logE (TreeEq.refl _) _)) o ho hne fuel name target g
+
+/-! ### non-vacuity of the hypotheses -/
+
+/-- two detached components -/
+def exInit : St := { comps := [{ parent := 0, root := 0 }, { parent := 1, root := 1 }] }
+
+example : InitForest exInit := by unfold InitForest; decide
+
+/-- the hypotheses of `register_moves_subtree` / `queued_not_lost` / `register_silent` hold in a
+    reachable configuration: one step into `do 0 (reg 1 0)` -/
+example : ∃ c, Reach exInit c ∧ ∃ k, c.stack = .register 1 0 :: k ∧ c.exn = none ∧
+    c.st.admissible 1 0 = true ∧ (0 : Nat) ≠ 1 :=
+  ⟨_, Reach.step (Reach.init 0 [] (.doAct 0 (.reg 1 0))), _, rfl, rfl, by decide, by decide⟩
+
+/-- … and two steps later the hypothesis of `announced_registered` -/
+example : ∃ c, Reach exInit c ∧ ∃ k, c.stack = .registerFin 1 :: k ∧ c.exn = none :=
+  ⟨_, Reach.step (Reach.step (Reach.init 0 [] (.doAct 0 (.reg 1 0)))), _, rfl, rfl⟩
+
+example : InitQuiet exInit := ⟨fun t ht => (by cases ht), rfl⟩
+
+/-- the frame hypothesis of `announced_only_partial` holds e.g. at the start of every operation -/
+example : ∀ f k, (startOf (envChange exInit 0 []) (.tick 0)).stack = f :: k →
+    (startOf (envChange exInit 0 []) (.tick 0)).exn = none →
+    ¬ f.announces (startOf (envChange exInit 0 []) (.tick 0)).st := by
+  intro f k h _
+  have : f = .tick 0 := by
+    have h' : [Frame.tick 0] = f :: k := h
+    injection h' with h1 _
+    exact h1.symm
+  subst this
+  exact fun h => h
+
+/-- component 1 attached under 0, about to run its `_on_prepare_unregister_complete` (handler 0) -/
+def exDetach : Cfg :=
+  { st := { comps := [{ parent := 0, root := 0, children := [1] }, { parent := 0, root := 0 }],
+            hs := [{ owner := 1, names := [], chan := none, kind := .prepUnregComplete }] },
+    stack := [.invoke 0 0 0] }
+
+/-- the hypotheses of `detach_moves_subtree` / `announced_unregistered` / `nothing_after_detach` -/
+example : ForestInv exDetach.st ∧ exDetach.stack = .invoke 0 0 0 :: [] ∧ exDetach.exn = none ∧
+    (exDetach.st.handler 0).kind = HKind.prepUnregComplete ∧
+    (exDetach.st.handler 0).owner < exDetach.st.comps.length ∧
+    (exDetach.st.comp (exDetach.st.handler 0).owner).parent ≠ (exDetach.st.handler 0).owner := by
+  refine ⟨⟨by decide, by decide, ?_, by decide, by decide, ⟨fun c => c, by decide⟩, by decide⟩,
+    rfl, rfl, rfl, by decide, by decide⟩
+  intro c d hc hd
+  have hc' : c = 0 ∨ c = 1 := by change c < 2 at hc; omega
+  rcases hc' with rfl | rfl
+  · have : d = 1 := by simpa [exDetach, St.comp] using hd
+    subst this; decide
+  · simp [exDetach, St.comp] at hd
+
 end CV.C07
